@@ -34,6 +34,9 @@ SHAPES = [
     ("SH_BW_PUT", BU, "self.buffered_values |= v << self.bit_offset; self.bit_offset += num_bits; if let Some(remaining) = self.bit_offset.checked_sub(64) {"),
     ("SH_BW_CARRY", BU, ".checked_shr((num_bits - self.bit_offset) as u32) .unwrap_or(0);"),
     ("SH_BR_GET", BU, "trailing_bits(self.buffered_values, self.bit_offset + num_bits) >> self.bit_offset;"),
+    ("SH_BR_VLQ_LIMIT", BU, "for (i, &byte) in buf.iter().enumerate() { if shift >= MAX_VLQ_BYTE_LEN * 7 { return None; } v |= ((byte & 0x7F) as i64) << shift; shift += 7;"),
+    ("SH_RLE_BOOL_EMPTY_FLUSH", ENC, "let rle_encoder = self.encoder.take().unwrap_or_else(|| {"),
+    ("SH_LV_CHUNK_BOUNDS", LV, "let start = nni.iter().copied().min().unwrap_or(0); let end = nni.iter().copied().max().map_or(0, |i| i + 1);"),
     ("SH_BR_BOUND", BU, "if self.byte_offset * 8 + self.bit_offset + num_bits > self.buffer.len() * 8 { return None; }"),
     # LevelInfoBuilder level arithmetic and run handling
     ("SH_LV_LIST_DEF", LV, "true => parent_ctx.def_level + 2, false => parent_ctx.def_level + 1, };"),
